@@ -29,6 +29,8 @@ const INPUTS = {
   // the same relative reference in two folders, different map files behind it
   ext_a: { file: '/app/a/index.js', code: 'function join(a, b) { return a + b }\n//# sourceMappingURL=index.js.map\n', vfs: EXT_VFS },
   ext_b: { file: '/app/b/index.js', code: 'function join(a, b) { return a + b }\n//# sourceMappingURL=index.js.map\n', vfs: EXT_VFS },
+  // more literals than any plausible per-file cap: the reported SET must not depend on hash order
+  manyliterals: { file: '/p/m.js', code: 'function f(a, b) { return a + b }\n' + Array.from({ length: 300 }, (_, i) => `const v${i} = 'literal_value_${String(i).padStart(5, '0')}';`).join('\n') + '\n' },
   long: { file: '/p/i.js', code: 'function f(a, b, o) {\n  { let x = a + g() + h(); }\n  { o.p += b.trim() + `${a}${g()}`; }\n  for (const q of o) { if (q?.trim().length) { b += q } }\n  return a.concat(b, g())\n}\n' }
 }
 const OTHER = Object.assign({}, C.PLUS_ONLY, { localVarPrefix: 'zz', comments: false, chainSourceMap: false, literals: false, telemetryVerbosity: 'OFF' })
@@ -174,6 +176,6 @@ module.exports = {
   check,
   inflight: 4,
   rule: 'leaf = history (sequence of (rewriter instance, input) calls, length <= h, plus each call repeated 25x); each history runs in its own fresh process; non-trivial = every history (each compares >= 1 call with an independent fresh-process reference); distinct by the sequence',
-  explanation: 'breadth-first enumeration of ALL call histories up to length h over a 35-symbol alphabet (modified / not modified / syntax error / cancelled / chained / two map comments / literal-heavy / multi-block inputs on two same-config instances and one default-prefix instance); invariant after every call: result == fresh single call',
+  explanation: 'breadth-first enumeration of ALL call histories up to length h over a 37-symbol alphabet (modified / not modified / syntax error / cancelled / chained / two map comments / literal-heavy / multi-block inputs on two same-config instances and one default-prefix instance); invariant after every call: result == fresh single call',
   assumptions: ['native process stands in for the wasm instance (process-wide statics behave alike)', 'contents under a default (random) prefix are compared after renaming __datadog_[a-z]{6}_ consistently', 'literal lists compared as sets (hash-map order is not part of the result)']
 }
